@@ -356,26 +356,63 @@ class Gen:
         out += [n for n, c in self.real.cumuls.items() if any(u._busy_intervals for u in c._cumulative_workers)]
         return out
 
+    def nbusy(self, n):
+        if n in self.real.workers:
+            return len(self.real.workers[n]._busy_intervals)
+        return sum(len(u._busy_intervals) for u in self.real.cumuls[n]._cumulative_workers)
+
+    def second_assignment(self):
+        """give a worker that already has one busy interval a second one (constraints over consecutive
+        busy intervals say nothing otherwise)"""
+        once = [n for n in self.plain_workers() if self.nbusy(n) == 1]
+        for w in self.rng.sample(once, len(once)):
+            ts = [t for t in self.tasks() if w not in {x.name for x in self.real.tasks[t]._required_resources}]
+            if ts:
+                self.emit({"op": "require", "task": self.rng.choice(ts), "res": ("worker", w)})
+                return True
+        return False
+
     def g_resc(self):
         rng = self.rng
+        if rng.random() < 0.5 and not any(self.nbusy(n) >= 2 for n in self.plain_workers()):
+            if self.second_assignment():
+                return
         res = self.assigned_resources()
-        if not res or rng.random() < self.invalid_p:
-            res = self.plain_workers() + list(self.real.cumuls)
+        if rng.random() < self.invalid_p * 2:
+            res = self.plain_workers() + list(self.real.cumuls)      # the ill-formed stream: possibly unassigned
+        elif not res:
+            return self.g_require()                                  # mostly-valid stream: assign first
         if not res:
             return self.g_worker()
         r = rng.choice(res)
+        # constraints over consecutive busy intervals need at least two of them to say anything
+        two = [n for n in res if self.nbusy(n) >= 2 and n in self.real.workers]
+        r2 = rng.choice(two) if two and rng.random() < 0.85 else r
+        plain = [n for n in res if n in self.real.workers]
+        rp = rng.choice(plain) if plain and rng.random() < 0.9 else r
         ivs = lambda: [self.interval() for _ in range(rng.randint(1, 3))]
+        period = rng.choice([5, 7, 10, 10])
+
+        def in_period():
+            out = []
+            for _ in range(rng.randint(1, 2)):
+                lo = rng.randint(0, period - 1)
+                out.append((lo, min(period, lo + rng.randint(1, 3)) if rng.random() < 0.93 else period + 1))
+            return list(dict.fromkeys(out))
         forms = [
             lambda: ("unavailable", r, ivs()),
             lambda: ("workload", r, [(a, b_, rng.choice([0, 1, 2, b_ - a, b_ - a + 1])) for a, b_ in dict.fromkeys(ivs())],
                      self.count_kind()),
-            lambda: ("nonDelay", r),
-            lambda: ("distance", r, rng.choice([0, 1, 2, 4]), rng.choice([None, None, ivs()]), self.count_kind()),
             lambda: ("interrupted", r, list(dict.fromkeys(ivs()))),
-            lambda: ("periodicallyUnavailable", r, [(a, min(b_, a + 3)) for a, b_ in dict.fromkeys(ivs())][:2],
+            lambda: ("periodicallyUnavailable", rp, [(a, min(b_, a + 3)) for a, b_ in dict.fromkeys(ivs())][:2],
                      rng.choice([5, 7, 10]), rng.choice([0, 0, 2, 7]), rng.choice([0, 0, 1, 3]),
                      rng.choice([None, None, self.H(), 15])),
+            lambda: ("periodicallyInterrupted", rp, in_period(), period, rng.choice([0, 0, 2, 7]), rng.choice([0, 0, 1, 3]),
+                     rng.choice([None, None, self.H(), 15])),
         ]
+        if two or rng.random() < 0.15:
+            forms += [lambda: ("nonDelay", r2),
+                      lambda: ("distance", r2, rng.choice([0, 1, 2, 4]), rng.choice([None, None, ivs()]), self.count_kind())]
         ns = self.nselects()
         if ns >= 2:
             forms += [lambda: ("sameWorkers", rng.randrange(ns), rng.randrange(ns)),
@@ -433,8 +470,14 @@ class Gen:
                                   None if self.simple else rng.choice([None, (0, 9), (0, 30), (0, 100)])))
         if res:
             r = rng.choice(res)
-            forms += [lambda: ("utilization", r), lambda: ("nbTasksAssigned", r), lambda: ("idle", r),
+            forms += [lambda: ("utilization", r), lambda: ("nbTasksAssigned", r),
                       lambda: ("resourceCost", rng.sample(res, rng.randint(1, min(3, len(res)))))]
+            two = [n for n in self.plain_workers() if self.nbusy(n) >= 2]
+            if not two and rng.random() < 0.3 and self.second_assignment():
+                return
+            if two or rng.random() < 0.15:
+                ri = rng.choice(two) if two and rng.random() < 0.9 else r
+                forms += [lambda: ("idle", ri)]
         if with_due:
             sub = rng.choice([None, rng.sample(with_due, rng.randint(1, len(with_due)))])
             if sub is None and len(with_due) != len(ts):
@@ -479,6 +522,10 @@ class Gen:
             forms += [lambda: ("resourceUtilization", rng.choice(res))] * 2
             forms += [lambda: ("resourceUtilization", rng.choice(res)),
                       lambda: ("resourceCost", rng.sample(res, rng.randint(1, min(2, len(res)))))]
+            used = [n for n in self.plain_workers() if self.nbusy(n) >= 1]
+            if used or rng.random() < 0.15:
+                rf = rng.choice(used) if used and rng.random() < 0.9 else rng.choice(res)
+                forms += [lambda: ("flowtimeSingleResource", rf, rng.choice([None, self.interval(), (0, self.H())]))] * 2
         if self.real.buffers:
             b = rng.choice(list(self.real.buffers))
             forms += [lambda: ("maximizeMaxBuffer", b), lambda: ("minimizeMaxBuffer", b)]
